@@ -56,13 +56,19 @@ func bases(tier string) []base {
 // further deviations on the axes *after* it, so every configuration is executed exactly once and scenarios are
 // small and of similar cost (one bootstrap each in the quick tier).
 func functionalScenarios(tier string) []engine.Scenario {
-	bound := 1
-	if tier == "thorough" {
-		bound = 2
-	}
 	var scs []engine.Scenario
 	for _, b := range bases(tier) {
 		b := b
+		// deviation bound: quick = 2 at LogN 8, 1 at LogN 9; thorough = 2 everywhere, 3 for the fully packed LogN 8 base
+		bound := 1
+		switch {
+		case tier == "quick" && b.logN == 8:
+			bound = 2
+		case tier == "thorough" && b.logN == 8 && b.logSlots == b.logN-1:
+			bound = 3
+		case tier == "thorough":
+			bound = 2
+		}
 		mk := func(first, alt int) engine.Scenario {
 			name := fmt.Sprintf("func/N%d/s%d", b.logN, b.logSlots)
 			if b.ctGap != 0 {
@@ -105,9 +111,37 @@ func functionalScenarios(tier string) []engine.Scenario {
 	return scs
 }
 
+// copyScenarios: a ShallowCopy of a used evaluator must bootstrap like the original, for every ring relation x
+// sparsity x batch size (full product; the why_tests_cant of the property names copies and batching with ring switching).
+func copyScenarios(tier string) []engine.Scenario {
+	var scs []engine.Scenario
+	logNs := []int{8}
+	if tier == "thorough" {
+		logNs = []int{8, 9}
+	}
+	for _, logN := range logNs {
+		for _, ls := range []int{2, logN - 1} {
+			logN, ls := logN, ls
+			scs = append(scs, engine.Scenario{Name: fmt.Sprintf("copy/N%d/s%d", logN, ls), Bound: -1, Fn: func(c *engine.Chooser) {
+				k := cfg{LogN: logN, LogSlots: ls, Copy: true}
+				k.Residual = c.Choose(4, "residual")
+				k.CtGap = c.Choose(2, "ctgap")
+				k.Batch = c.Choose(3, "batch")
+				c.Cover("axis", "copy")
+				runFunctional(c, k)
+			}})
+		}
+	}
+	return scs
+}
+
 func scenarios(tier string) []engine.Scenario {
 	var scs []engine.Scenario
+	scs = append(scs, defaultScenarios(tier)...)
 	scs = append(scs, functionalScenarios(tier)...)
+	scs = append(scs, copyScenarios(tier)...)
+	scs = append(scs, dftScenarios(tier)...)
+	scs = append(scs, mod1Scenarios(tier)...)
 	return scs
 }
 
@@ -131,7 +165,10 @@ func main() {
 		QuickBudget:    140 * time.Second,
 		ThoroughBudget: 25 * time.Minute,
 		Expect: func(tier string) []string {
-			e := []string{"axis=default", "encaps=on", "encaps=off", "ringkeys=none", "ringkeys=degree-switch", "ringkeys=conjugate-invariant",
+			e := []string{"axis=default", "axis=copy", "calibration=hit", "dft=sparse=true", "dft=sparse=false",
+				"mod1type=0", "mod1type=1", "mod1type=2", "mod1da=0", "mod1da=1", "mod1da=2", "mod1da=3", "mod1inv=0", "mod1inv=5", "mod1inv=7",
+				"default=DefaultParametersSparse[0]", "default=DefaultParametersDense[0]", "defaultLogN=8", "defaultLogN=9", "defaultLogN=10",
+				"keys=all-generated-keys-requested", "rejected=constructor-error", "encaps=on", "encaps=off", "ringkeys=none", "ringkeys=degree-switch", "ringkeys=conjugate-invariant",
 				"api=Bootstrap", "api=BootstrapMany", "logN=8", "logN=9", "ctLogSlots=0", "ctLogSlots=1", "ctLogSlots=2", "ctLogSlots=full", "ctLogSlots=half"}
 			for _, ax := range axes {
 				for a := 1; a <= ax.alts; a++ {
